@@ -294,7 +294,7 @@ func walkFiltered(c c10Case, under fsutil.FS) (*c10Result, error) {
 			return fsutil.MapResultKeep
 		}
 	}
-	ffs, err := fsutil.NewFilterFS(under, opt)
+	ffs, err := newFilterFSReusedOpt(under, opt)
 	if err != nil {
 		return nil, err
 	}
@@ -561,7 +561,7 @@ func runC10(r *evid.Run) {
 		}
 	}
 	// patterns spelled with a leading separator or leading "..": they name nothing inside the tree
-	odd := []string{"/a", "../a", "!/a/b", "/a/b", "a", "!a/b", "a/../b", "./a/b"}
+	odd := []string{"/a", "../a", "!/a/b", "/a/b", "a", "!a/b", "a/../b", "./a/b", "", " "}
 	for _, t := range trees[:4] {
 		for _, inc := range patternLists(2, odd) {
 			for _, exc := range patternLists(1, odd) {
@@ -672,4 +672,61 @@ func replayC10(raw json.RawMessage) string {
 		return ""
 	}
 	return k + ": " + m
+}
+
+// errOptMutated: NewFilterFS changed the option struct its caller handed in.
+type errOptMutated struct{ what string }
+
+func (e errOptMutated) Error() string { return "NewFilterFS rewrote its caller's options: " + e.what }
+
+// newFilterFSReusedOpt is NewFilterFS called the way a caller that keeps and re-uses its option struct calls it: the
+// lists have spare capacity (built with append), and once the view exists the caller goes on using the struct -
+// every pattern is overwritten, the spare capacity is written to, the map function is replaced by one that drops
+// everything. The view must have taken what it needs at construction; the caller's struct must come back unchanged.
+func newFilterFSReusedOpt(under fsutil.FS, o *fsutil.FilterOpt) (fsutil.FS, error) {
+	spare := func(l []string) []string {
+		if l == nil {
+			return nil
+		}
+		out := append(make([]string, 0, len(l)+8), l...)
+		for i := len(l); i < cap(out); i++ {
+			out[:cap(out)][i] = "spare-capacity"
+		}
+		return out
+	}
+	opt := &fsutil.FilterOpt{IncludePatterns: spare(o.IncludePatterns), ExcludePatterns: spare(o.ExcludePatterns), FollowPaths: spare(o.FollowPaths), Map: o.Map}
+	v, err := fsutil.NewFilterFS(under, opt)
+	if err != nil {
+		return nil, err
+	}
+	same := func(name string, got, want []string) error {
+		if len(got) != len(want) || (got == nil) != (want == nil) {
+			return errOptMutated{fmt.Sprintf("%s is %q, was %q", name, got, want)}
+		}
+		for i := range want {
+			if got[i] != want[i] {
+				return errOptMutated{fmt.Sprintf("%s is %q, was %q", name, got, want)}
+			}
+		}
+		for i := len(got); i < cap(got); i++ {
+			if got[:cap(got)][i] != "spare-capacity" {
+				return errOptMutated{fmt.Sprintf("%s: the caller's spare capacity holds %q", name, got[:cap(got)][i])}
+			}
+		}
+		return nil
+	}
+	for _, e := range []error{same("IncludePatterns", opt.IncludePatterns, o.IncludePatterns), same("ExcludePatterns", opt.ExcludePatterns, o.ExcludePatterns), same("FollowPaths", opt.FollowPaths, o.FollowPaths)} {
+		if e != nil {
+			return nil, e
+		}
+	}
+	for _, l := range [][]string{opt.IncludePatterns, opt.ExcludePatterns, opt.FollowPaths} {
+		for i := range l[:cap(l)] {
+			l[:cap(l)][i] = "**"
+		}
+	}
+	opt.IncludePatterns, opt.FollowPaths = []string{"scribbled"}, []string{"scribbled"}
+	opt.ExcludePatterns = []string{"**"}
+	opt.Map = func(string, *types.Stat) fsutil.MapResult { return fsutil.MapResultExclude }
+	return v, nil
 }
